@@ -167,6 +167,41 @@ Definition params_equiv (a b : params) : bool :=
 Definition has_bar (s : str) : bool := existsb (fun c => c =? CH_BAR) s.
 Definition op_no_bar (o : op) : bool := negb (has_bar (arg_str (snd o))).
 
+(* ---- the URI grammar ------------------------------------------------------------------------------ *)
+
+Definition name_ok (k : str) : bool :=
+  negb (is_empty k) && forallb (fun c => negb (c =? CH_EQ) && negb (c =? CH_BAR)) k.
+
+Definition entry_ok (kv : str * str) : bool := name_ok (fst kv) && negb (has_bar (snd kv)).
+
+Fixpoint keys_distinct (ps : params) : bool :=
+  match ps with
+  | [] => true
+  | (k, _) :: r => negb (existsb (fun kv => str_eqb k (fst kv)) r) && keys_distinct r
+  end.
+
+Definition media_char_ok (c : Z) : bool :=
+  negb (c =? CH_QMARK) && negb (c =? CH_EQ) && negb (c =? CH_BAR) && negb (c =? CH_COLON).
+
+Definition spec_join (kvs : params) : str :=
+  match kvs with
+  | [] => []
+  | kv :: r => [CH_QMARK] ++ fst kv ++ [CH_EQ] ++ snd kv
+               ++ List.concat (map (fun kv => [CH_BAR] ++ fst kv ++ [CH_EQ] ++ snd kv) r)
+  end.
+
+Definition spec_uri (prefix media : str) (kvs : params) : str :=
+  (if is_empty prefix then [] else prefix ++ [CH_COLON]) ++ P_AERON ++ [CH_COLON] ++ media ++ spec_join kvs.
+
+Definition grammar_ok (prefix media : str) (kvs : params) : bool :=
+  (is_empty prefix || str_eqb prefix P_SPY)
+  && forallb media_char_ok media
+  && forallb entry_ok kvs
+  && (match kvs with [] => str_eqb media P_UDP || str_eqb media P_IPC | _ => true end).
+
+(* a later occurrence of a key replaces an earlier one *)
+Definition last_wins (kvs : params) : params := fold_left (fun acc kv => insert (fst kv) (snd kv) acc) kvs [].
+
 (* ---- tables_ok ---------------------------------------------------------------------------------- *)
 
 Definition iexp_eq_dec : forall a b : iexp, {a = b} + {a <> b}.
@@ -257,9 +292,6 @@ Definition clear_ok (T : tables) : bool :=
       && forallb (fun f => memb string_dec f (map fst (s_assigns r))) (all_fields T)
   | None => false
   end.
-
-Definition name_ok (k : str) : bool :=
-  negb (is_empty k) && forallb (fun c => negb (c =? CH_EQ) && negb (c =? CH_BAR)) k.
 
 Definition tables_ok (T : tables) : bool :=
   (* every setter of the Rust source is one the specification knows *)
